@@ -19,7 +19,7 @@ CHECKS = {
              note=TB + 'sin/cos are uninterpreted with sin^2+cos^2=1 and the angle-addition formulas as axioms; sqrt_r with its defining axiom.', ref='5 C04'),
  'C07': dict(tech='Verus contracts (definition matrices; X_ed(self,p) == X_ion(p)*self; in-place == returning) on the extracted translation/scaling/shear builders, mul_point/mul_direction, From<Transform> of Mat2/3/4 in both layouts + z3 lemma for product associativity, glued by theorem functions',
              text='Deductive proof: translation_2d/3d, scaling_2d/3d, shearing_x/y constructors equal their definition matrices, each *_ed builder equals pre-multiplication by the constructor and each in-place form equals the returning form (Mat2/3/4, both layouts); mul_point/mul_direction use w=1/w=0; theorem functions prove the point/direction action, a 3-step chain applied in call order for every start matrix, Transform::default = identity map and the Transform -> matrix map p -> position + orientation*(scale.p).',
-             note=TB + 'Known finding (open, listed in known_findings.json): Mat4::from(Transform) is T*S*R, the property is T*R*S; its six off-diagonal obligations per layout are refuted and reported as KNOWN-FINDING.', ref='5 C07'),
+             note=TB + 'Mat4::from(Transform) was T*S*R (genuine defect, repaired by a fix: commit in /repo, see known_findings.json).', ref='5 C07'),
  'C06': dict(tech='Verus contracts (cofactor/Leibniz determinant, adjugate/determinant inverse) on the extracted determinant/inverted/Mul functions + z3 (QF_NRA) lemmas for det multiplicativity, transpose invariance and M*adj/det = I, glued by Verus-checked theorem functions over the real API',
              text='Deductive proof: determinant (2,3,4; both layouts) equals the cofactor expansion; Mat4::inverted (2x2-block algorithm through the real shuffle/mat2 helper code incl. the bit-packed ShuffleMask4) returns adj(M)/det(M) whenever det != 0; theorem functions calling the real API prove det(M^T)=det(M), layout invariance, det(AB)=det(A)det(B) and M*M^-1 = M^-1*M = I for every real matrix with non-zero determinant, with the polynomial/rational identities discharged by z3 (nlsat / solve-eqs+smt portfolio).',
              note=TB + 'The rigid and affine fast inverses are not yet under contract (listed under not_decided).', ref='5 C06'),
